@@ -445,6 +445,14 @@ func labels(c Case) []string {
 	if c.InRecord {
 		l = append(l, "record route")
 	}
+	switch nl := len(c.Loc.Segments()); {
+	case nl > 256:
+		l = append(l, "leaves:>256")
+	case nl > 64:
+		l = append(l, "leaves:65..256")
+	case nl > 16:
+		l = append(l, "leaves:17..64")
+	}
 	return l
 }
 
